@@ -201,3 +201,17 @@ def bounded_read(v):
     v.check('never-beyond-slice', n <= rem0)
     v.check('cursor-advances-by-returned', fh.pos == pos0 + n)
     v.cover('read-returns')
+
+
+KILLS = [
+    ('falcon/routing/static.py', '    end = min(end, size - 1)\n', '    end = min(end, size)\n', '_set_range#content-range-is-requested-slice'),
+    ('falcon/routing/static.py', '    if start >= size:\n', '    if start > size:\n', '_set_range#416-iff-first-beyond-size'),
+    ('falcon/routing/static.py', '    length = end - start + 1\n', '    length = end - start\n', '_set_range#length-matches-content-range'),
+    ('falcon/routing/static.py', '        start = max(start, -size)\n', '        start = max(start, -size + 1)\n', '_set_range#content-range-is-requested-slice'),
+    ('falcon/routing/static.py', '        self.remaining -= len(data)\n', '        self.remaining -= size\n', '_BoundedFile.read#budget-deducts-returned'),
+    ('falcon/routing/static.py', '            size = min(size, self.remaining)\n', '            size = max(size, self.remaining)\n', '_BoundedFile.read#never-requests-more-than-remaining'),
+]
+HARMLESS = [
+    ('falcon/routing/static.py', '    size = st.st_size\n    if req_range is None:\n        return fh, size, None\n',
+     '    file_size = st.st_size\n    size = file_size\n    if req_range is None:\n        return fh, file_size, None\n'),
+]
